@@ -1,0 +1,112 @@
+//go:build verif
+
+// Contracts for package cmd (comment-only; compiled only with the build tag "verif",
+// read by /verif/engine). Property C17 (token authentication wiring).
+
+package cmd
+
+//@ import auth "github.com/grpc-ecosystem/go-grpc-middleware/v2/interceptors/auth"
+//@ import grpc "google.golang.org/grpc"
+//@ import context "context"
+
+// plumbing packages: calls without a contract are ASSUMED to write nothing the verified code can see
+//@ trustframe "github.com/spf13/viper" "google.golang.org/grpc" "google.golang.org/grpc/keepalive" "google.golang.org/grpc/credentials" "net" "golang.org/x/net/netutil" "runtime" "github.com/grpc-ecosystem/go-grpc-middleware/providers/prometheus" "go.uber.org/zap" "github.com/jamf/regatta/regattaserver" "github.com/jamf/regatta/security" "fmt" "github.com/prometheus/client_golang/prometheus"
+
+// the bearer token a call carries in its metadata (absent: hasBearer false)
+//@ uninterp func hasBearer(ctx context.Context) bool
+//@ uninterp func bearerOf(ctx context.Context) string
+//@ func auth.AuthFromMD
+//@   assumed
+//@   params ctx, scheme
+//@   results tok, err
+//@   ensures (err == nil) == hasBearer(ctx) && (err == nil ==> tok == bearerOf(ctx))
+//@   modifies nothing
+
+// the check installed for a configured token: passes exactly the calls carrying that very token
+//@ func authFunc$2
+//@   results c, err
+//@   ensures [C17.token] (err == nil) == (hasBearer(ctx) && bearerOf(ctx) == *token)
+//@   modifies nothing
+
+// authFunc: a configured (non-empty) token always yields a check
+//@ func authFunc
+//@   ensures result != nil && result.tok == token
+//@   ghostset result.tok = token
+//@   modifies nothing
+
+// the interceptors of the auth middleware are recognisable values
+//@ uninterp func isAuthStream(f Ref) bool
+//@ uninterp func isAuthUnary(f Ref) bool
+//@ func auth.StreamServerInterceptor
+//@   assumed
+//@   ensures result != nil && isAuthStream(result)
+//@   modifies nothing
+//@ func auth.UnaryServerInterceptor
+//@   assumed
+//@   ensures result != nil && isAuthUnary(result)
+//@   modifies nothing
+//@ import regattaserver "github.com/jamf/regatta/regattaserver"
+//@ func regattaserver.NewServer
+//@   assumed
+//@   ensures result != nil
+//@   modifies nothing
+//@ func resolveURL
+//@   assumed
+//@   modifies nothing
+
+// createAPIServer: both interceptor chains - streaming and unary - contain the auth interceptor,
+// which consults the per-service AuthFuncOverride
+//@ func createAPIServer
+//@   maypanic
+//@   functype reg regContract
+//@   requires log != nil && reg != nil
+//@   before grpc.ChainStreamInterceptor assert [C17.chain.stream] exists j int :: 0 <= j && j < len(interceptors) && isAuthStream(interceptors[j])
+//@   before grpc.ChainUnaryInterceptor assert [C17.chain.unary] exists j int :: 0 <= j && j < len(interceptors) && isAuthUnary(interceptors[j])
+//@   modifies nothing
+//@ func regContract
+//@   assumed
+//@   modifies nothing
+
+// ---- registration: the protected services are registered with the check built from the configured token
+
+//@ import regattapb "github.com/jamf/regatta/regattapb"
+//@ import viper "github.com/spf13/viper"
+// the configured string under a key
+//@ uninterp func cfgStr(key string) string
+//@ func viper.GetString
+//@   assumed
+//@   ensures result == cfgStr(key)
+//@   modifies nothing
+// the token a check was built for (ghost, set by authFunc)
+//@ ghostfield any.tok string
+//@ func regattapb.RegisterKVServer
+//@   assumed
+//@   modifies nothing
+//@ func regattapb.RegisterClusterServer
+//@   assumed
+//@   modifies nothing
+//@ func regattapb.RegisterTablesServer
+//@   assumed
+//@   modifies nothing
+//@ func regattapb.RegisterMaintenanceServer
+//@   assumed
+//@   modifies nothing
+//@ func regattapb.NewKVClient
+//@   assumed
+//@   modifies nothing
+//@ func regattaserver.NewForwardingKVServer
+//@   assumed
+//@   ensures result != nil
+//@   modifies nothing
+
+// leader API server: tables service <- tables.token, maintenance (backup) service <- maintenance.token
+//@ func leader$3
+//@   before regattapb.RegisterTablesServer assert [C17.reg.tables] typeIs(srv, *regattaserver.TablesServer) && asType(srv, *regattaserver.TablesServer).AuthFunc != nil && asType(srv, *regattaserver.TablesServer).AuthFunc.tok == cfgStr("tables.token")
+//@   before regattapb.RegisterMaintenanceServer assert [C17.reg.maintenance] typeIs(srv, *regattaserver.BackupServer) && asType(srv, *regattaserver.BackupServer).AuthFunc != nil && asType(srv, *regattaserver.BackupServer).AuthFunc.tok == cfgStr("maintenance.token")
+//@   modifies nothing
+
+// follower API server: maintenance (reset) service <- maintenance.token, read-only tables service <- tables.token
+//@ func follower$4
+//@   before regattapb.RegisterTablesServer assert [C17.reg.tables] typeIs(srv, *regattaserver.ReadonlyTablesServer) && asType(srv, *regattaserver.ReadonlyTablesServer).TablesServer.AuthFunc != nil && asType(srv, *regattaserver.ReadonlyTablesServer).TablesServer.AuthFunc.tok == cfgStr("tables.token")
+//@   before regattapb.RegisterMaintenanceServer assert [C17.reg.maintenance] typeIs(srv, *regattaserver.ResetServer) && asType(srv, *regattaserver.ResetServer).AuthFunc != nil && asType(srv, *regattaserver.ResetServer).AuthFunc.tok == cfgStr("maintenance.token")
+//@   modifies nothing
